@@ -134,6 +134,30 @@ def regenerate_consts():
     return True, ""
 
 
+def regenerate_blockfacts():
+    """coq/theories/BlockFacts.v: the potentially blocking operations (selects with their cases, bare channel operations, blocking
+    calls, go statements) of every function of the library packages, translated from the current /repo sources by
+    tools/blockfacts on every run; StopAlts.v re-checks by computation that every blocking point of the v1 goroutines has a stop
+    alternative."""
+    os.makedirs(WORK, exist_ok=True)
+    tool = os.path.join(WORK, "blockfacts")
+    src = os.path.join(VERIF, "tools", "blockfacts")
+    if not os.path.exists(tool) or os.path.getmtime(tool) < os.path.getmtime(os.path.join(src, "main.go")):
+        rc, out = sh(["go", "build", "-o", tool, "."], cwd=src, env=GOENV, timeout=600)
+        if rc != 0:
+            return False, "blockfacts does not build: " + out[-1500:]
+    tmp = os.path.join(WORK, "BlockFacts.v.%d" % os.getpid())
+    rc, out = sh([tool, REPO, tmp] + RACEFACTS_PKGS, timeout=300)
+    if rc != 0 or not os.path.exists(tmp):
+        return False, "blockfacts failed on the current sources: " + out[-1500:]
+    dst = os.path.join(COQ, "theories", "BlockFacts.v")
+    new = open(tmp).read()
+    os.remove(tmp)
+    if not os.path.exists(dst) or open(dst).read() != new:
+        open(dst, "w").write(new)
+    return True, ""
+
+
 def coq_make(clean=False, timeout=3000):
     """Builds the whole development (`make -k`: a file that no longer checks does not hide the others; its stale .vo is removed
     so that nothing can load it).  Returns (everything built, output)."""
@@ -141,6 +165,9 @@ def coq_make(clean=False, timeout=3000):
     if not ok:
         return False, msg
     ok, msg = regenerate_consts()
+    if not ok:
+        return False, msg
+    ok, msg = regenerate_blockfacts()
     if not ok:
         return False, msg
     if clean:
